@@ -72,6 +72,7 @@ type vBroker struct {
 	drop  func(p *packets.PublishPacket) bool
 	port  uint16
 	mutex sync.Mutex
+	conns []net.Conn // the client ends of every connection dialled: closed by close(), or their goroutines pile up over millions of executions
 }
 
 type vPipe struct{ vb *vBroker }
@@ -121,6 +122,13 @@ func vNewBroker(spec *Spec) *vBroker {
 func (vb *vBroker) close() {
 	vb.store.resume()
 	vb.b.close()
+	vb.mutex.Lock()
+	conns := vb.conns
+	vb.conns = nil
+	vb.mutex.Unlock()
+	for _, k := range conns {
+		k.Close()
+	}
 	synctest.Wait()
 }
 
@@ -163,6 +171,9 @@ func (vb *vBroker) dial(id string) *vClient {
 	if err != nil {
 		panic(err)
 	}
+	vb.mutex.Lock()
+	vb.conns = append(vb.conns, conn)
+	vb.mutex.Unlock()
 	return &vClient{id: id, conn: conn, srv: srv, nextID: 100}
 }
 
